@@ -14,12 +14,10 @@ through `MetaModel.new` (referred rows first) and by cloning the loaded instance
        associations as a multiset, multiset of rows per class, link relation on rows identified by their
        INSERT statement) — instance and partner ORDER is not demanded by D (the property speaks of the link
        relation); it is the model's claim (build_perm_ordered) and compared by K; the API and clone routes yield
-       the same links (referred rows first).  Where the real code contradicts that, the difference is reported
-       under the signature of an OPEN known finding, and only when it is exactly the symptom proved for that
-       finding in Props/C03.lean: api-phrased-direction (phrased / reflexive associations), api-dangling-chained-key
-       (an identifying attribute that is itself referential reads None when the referred row's own reference is
-       dangling: the pairs `new` can find are computed by the oracle `_reads`), api-cardinality-rejected
-       (RelateException where the row would give a single-valued end a second partner); any other difference fails.
+       the same links (referred rows first).  Where the real code contradicts that, the route must equal EXACTLY what
+       an independent simulation of the three OPEN known findings predicts (`_ApiSim`: api-phrased-direction,
+       api-dangling-chained-key, api-cardinality-rejected, each proved about the model in Props/C03.lean); the difference
+       is then reported under the signatures of the findings that caused it; any other difference fails.
   K  (correspondence): the ordered dump of every variant (classes in metaclass order with their stored rows,
        associations in definition order with the ordered partner lists in both directions, or `error`) equals
        the answer of the Lean model `Pyx.Load.build` (hash join with the index cache, five phases); API and
@@ -603,25 +601,6 @@ class _Cyclic(Exception):
     pass
 
 
-def _reads(stmts, raw, expected, pos, t, attr, seen=(), drop=()):
-    """what `getattr(instance t, attr)` gives once the rows exist, by the statement alone: a referential attribute is
-    read through the link of the association formalised LAST that links the instance (first partner in storage
-    order), from the partner's corresponding identifying attribute; without any such link it reads None; any other
-    attribute reads the value the row was created with"""
-    if (t, attr) in seen:
-        raise _Cyclic()
-    kind = stmts[t]['kind']
-    using = [(bi, b) for bi, b in enumerate(stmts) if b['t'] == 'assoc' and b['sk'] == kind and attr in b['skeys']]
-    if not using:
-        return raw[t].get(attr)
-    for bi, b in reversed(using):
-        partners = [] if t in drop else sorted((t2 for (s2, t2) in expected[bi] if s2 == t), key=lambda i: pos[i])
-        if partners:
-            return _reads(stmts, raw, expected, pos, partners[0], dict(zip(b['skeys'], b['tkeys']))[attr],
-                          seen + ((t, attr),), drop)
-    return None
-
-
 def _api_guard(stmts, raw, expected):
     """None, or the reason the API route cannot be exercised at all"""
     for ai in expected:
@@ -631,26 +610,153 @@ def _api_guard(stmts, raw, expected):
     return None
 
 
-def _predicted(stmts, raw, expected, order, drop=(), clone=False):
-    """the pairs `new` can find, row by row in creation order: a referred row is found through its identifying
-    attributes AS READ from the instance at that moment, i.e. through the links made so far (open finding
-    api-dangling-chained-key: an identifying attribute that is itself referential reads None when the row's own
-    reference is dangling or null — or was not found for the same reason); `drop`: rows whose own links are taken to
-    be missing (their `new` was aborted)"""
-    pos = dict((i, k) for k, i in enumerate(order))
-    pos0 = dict((i, i) for i in order)          # storage order of the loaded metamodel: statement order
-    made = dict((ai, set()) for ai in expected)
-    for s in order:
-        for ai in sorted(expected):
-            a = stmts[ai]
-            if clone and any(_reads(stmts, raw, expected, pos0, s, sk) != raw[s].get(sk) for sk in a['skeys']):
-                continue        # clone passes what it READS from the loaded instance: None for such an attribute
-            for (s2, t) in sorted(expected[ai]):
-                if s2 != s or pos.get(t, len(order)) >= pos[s]:
+class _ApiSim(object):
+    """What creating the rows through `new` / `clone` does AS THE CODE IS NOW, written down independently of the
+    implementation and of the Lean model, from the three open findings:
+
+      api-phrased-direction      `new` calls relate(found, new, rel, phrase of the link that STARTS at the new instance's
+                                 class); `_find_link` compares that phrase with the link that starts at the FIRST
+                                 argument's class (first association of the number that passes one of its two tests);
+      api-dangling-chained-key   the query of `new` reads a referential attribute of a candidate through the links made so
+                                 far (last formalised association first, first partner), None without a partner;
+      api-cardinality-rejected   relate() connects with the cardinality check and raises RelateException; `new` is aborted.
+
+    Every deviation from the property's statement that one of these causes is recorded in `triggers`; D accepts a
+    difference between the API route and the loader only if the API route equals this simulation exactly, and reports it
+    under the signatures in `triggers`."""
+
+    def __init__(self, stmts, raw):
+        self.stmts, self.raw = stmts, raw
+        self.assocs = [(ai, a) for ai, a in enumerate(stmts) if a['t'] == 'assoc']
+        self.src = dict((ai, {}) for ai, _ in self.assocs)      # association -> referred row -> referring rows
+        self.tgt = dict((ai, {}) for ai, _ in self.assocs)      # association -> referring row -> referred rows
+        self.rows = {}                                          # kind -> rows in creation order
+        self.triggers = set()
+
+    def referential(self, kind):
+        return _referential(self.stmts, kind)
+
+    def links_of(self, kind):
+        """`metaclass.links` (a dict keyed by (other kind, number, phrase)): (own role, association, key map other->own,
+        other kind, phrase)"""
+        out = {}
+        for ai, a in self.assocs:
+            if a['tk'] == kind:
+                out[(a['sk'], a['rel'], a['tph'])] = ('referred', ai, dict(zip(a['skeys'], a['tkeys'])), a['sk'], a['tph'])
+            if a['sk'] == kind:
+                out[(a['tk'], a['rel'], a['sph'])] = ('referring', ai, dict(zip(a['tkeys'], a['skeys'])), a['tk'], a['sph'])
+        return list(out.values())
+
+    def read(self, i, attr, tgt=None, seen=()):
+        if (i, attr) in seen:
+            raise _Cyclic()
+        tgt = self.tgt if tgt is None else tgt
+        kind = self.stmts[i]['kind']
+        if attr not in self.referential(kind):
+            return self.raw[i].get(attr)
+        for bi, b in reversed(self.assocs):
+            if b['sk'] == kind and attr in b['skeys']:
+                partners = tgt[bi].get(i, [])
+                if partners:
+                    return self.read(partners[0], dict(zip(b['skeys'], b['tkeys']))[attr], tgt, seen + ((i, attr),))
+        return None
+
+    def relate(self, other, inst, rel, phrase, role, own_ai):
+        k1, k2 = self.stmts[other]['kind'], self.stmts[inst]['kind']
+        found = None
+        for ai, a in self.assocs:
+            if a['rel'] != rel:
+                continue
+            if a['tk'] == k1 and a['sk'] == k2 and a['tph'] == phrase:
+                found = (ai, other, inst)
+                break
+            if a['sk'] == k1 and a['tk'] == k2 and a['sph'] == phrase:
+                found = (ai, inst, other)
+                break
+        right = (own_ai, other, inst) if role == 'referring' else (own_ai, inst, other)
+        if found != right:
+            self.triggers.add('api-phrased-direction')
+        if found is None:
+            return 'UnknownLinkException'
+        ai, t, s = found
+        a = self.stmts[ai]
+        L = self.src[ai].setdefault(t, [])
+        if s not in L:
+            if L and 'M' not in a['scard']:
+                self.triggers.add('api-cardinality-rejected')
+                return 'RelateException'
+            L.append(s)
+        M = self.tgt[ai].setdefault(s, [])
+        if t not in M:
+            if M and 'M' not in a['tcard']:
+                if s in L:
+                    L.remove(s)
+                self.triggers.add('api-cardinality-rejected')
+                return 'RelateException'
+            M.append(t)
+        return 'ok'
+
+    def new(self, i, given):
+        """`given`: attribute -> value handed to new()"""
+        kind = self.stmts[i]['kind']
+        self.rows.setdefault(kind, []).append(i)
+        c = G.class_of(self.stmts, kind)
+        refs = dict((n, given.get(n)) for n, _ in c['attrs'] if n in self.referential(kind))
+        if not refs:
+            return 'ok'
+        try:
+            for role, ai, km, okind, phrase in self.links_of(kind):
+                if set(km.values()) - set(refs):
                     continue
-                if all(_reads(stmts, raw, made, pos, t, tk, (), drop) == raw[t].get(tk) for tk in a['tkeys']):
-                    made[ai].add((s, t))
-    return made
+                kwargs = {}
+                for okey, own in km.items():
+                    if G.is_null(refs[own]):
+                        kwargs = None
+                        break
+                    kwargs[okey] = refs[own]
+                if not kwargs:
+                    continue
+                for other in list(self.rows.get(okind, [])):
+                    hit = True
+                    for k, v in kwargs.items():
+                        got = self.read(other, k)
+                        if got != v:
+                            if got is None and self.raw[other].get(k) == v:
+                                self.triggers.add('api-dangling-chained-key')
+                            hit = False
+                            break
+                    if hit:
+                        res = self.relate(other, i, self.stmts[ai]['rel'], phrase, role, ai)
+                        if res != 'ok':
+                            return res
+        except _Cyclic:
+            return 'RecursionError'
+        return 'ok'
+
+    def run(self, order, clone_links=None):
+        """rows created in `order`; clone_links: the loader's links (association -> referring row -> referred rows in
+        storage order) when the values are those READ from the loaded instances"""
+        outcomes = []
+        for i in order:
+            c = G.class_of(self.stmts, self.stmts[i]['kind'])
+            if clone_links is None:
+                given = dict(self.raw[i])
+            else:
+                given = {}
+                for n, _ in c['attrs']:
+                    given[n] = self.read(i, n, clone_links)
+                    if given[n] != self.raw[i].get(n):
+                        self.triggers.add('api-dangling-chained-key')
+            outcomes.append(self.new(i, given))
+        return outcomes
+
+    def link_sets(self):
+        out = {}
+        for ai, _ in self.assocs:
+            f = set((s_, t_) for s_, ts in self.tgt[ai].items() for t_ in ts)
+            b = set((s_, t_) for t_, ss in self.src[ai].items() for s_ in ss)
+            out[ai] = (f, b)
+        return out
 
 
 def _route_api(stmts, raw, order, clone_from=None):
@@ -691,112 +797,57 @@ def _api_links(stmts, order, dump):
     return out
 
 
-def _phrased_symptom(a, stmts, f, b, want, bad_rows):
-    """is the difference on the phrased association `a` one of the symptoms PROVED for the open finding
-    (Props/C03.lean phrased_direction_reflexive / _unknown / phrased_witness_twin)?"""
-    alone = sum(1 for x in stmts if x['t'] == 'assoc' and x['rel'] == a['rel']) == 1
-    if not alone:
-        return True                                   # the link may land on the other association of the number
-    if set(a['tkeys']) & _referential(stmts, a['tk']):
-        return True                                   # its identifying attributes are read through links, which the
-                                                      # finding may have made in the wrong direction: not predicted here
-    if f != b:
-        return False
-    if a['sk'] == a['tk']:
-        rev = set((t, s) for (s, t) in want)          # related the wrong way round
-        return f <= rev and all(s in bad_rows or t in bad_rows for (s, t) in rev - f)
-    # non-reflexive, different phrases: every relate raises UnknownLinkException, nothing is linked
-    return not f and all(s in bad_rows for (s, _) in want)
-
-
 def _check_api(route, stmts, raw, order, dump, outcomes, expected, fail, modelled):
-    """D for the API / clone route.  Differences that are exactly a symptom of an OPEN known finding are reported
-    under that finding's signature (KNOWN-FINDING); anything else is a failure."""
+    """D for the API / clone route: the links are those of loading the same rows (the property's statement), or — where
+    the code as it is contradicts that — exactly what the independent simulation `_ApiSim` of the three OPEN findings
+    gives; then the difference is reported under the signatures of the findings that caused it.  Anything else fails."""
     links = _api_links(stmts, order, dump)
+    got_out = [str(o) for o in outcomes]
+    if all(o == 'ok' for o in got_out) and all(f == expected[ai] and b == expected[ai] for ai, (f, b) in links.items()):
+        return None
+    sim = _ApiSim(stmts, raw)
+    clone_links = None
+    if route == 'clone':
+        # the loaded metamodel: the loader's links, partners in storage (= statement) order
+        clone_links = dict((ai, {}) for ai in expected)
+        for ai, pairs in expected.items():
+            for (s_, t_) in sorted(pairs, key=lambda p: (p[0], p[1])):
+                clone_links[ai].setdefault(s_, []).append(t_)
     try:
-        pred = _predicted(stmts, raw, expected, order, (), route == 'clone')
+        want_out = sim.run(order, clone_links)
     except _Cyclic:
         return 'cyclic'
-    out_of = dict((order[k], str(o)) for k, o in enumerate(outcomes))
-    rel_rows = set(i for i, o in out_of.items() if o == 'RelateException')
-    unk_rows = set(i for i, o in out_of.items() if o == 'UnknownLinkException')
-    bad_rows = set(i for i, o in out_of.items() if o != 'ok')
-    phr_kinds = set()
-    for x in stmts:
-        if x['t'] == 'assoc' and _phrased(x):
-            phr_kinds.update((x['sk'], x['tk']))
-    findings = {}
+    want = sim.link_sets()
 
     def context():
-        return 'rows created in the order %s; outcomes %s; input:\n%s' % (order, [str(o) for o in outcomes], G.text_of(stmts))
+        return 'rows created in the order %s; outcomes %s; input:\n%s' % (order, got_out, G.text_of(stmts))
 
-    def justified(s):
-        """RelateException is what `relate` must raise: the row would give a single-valued end a second partner"""
-        for ai, want in pred.items():
-            a = stmts[ai]
-            f = links[ai][0]
-            mine = [(s2, t) for (s2, t) in want if s2 == s]
-            if 'M' not in a['scard'] and any(t3 == t and s3 != s for (_, t) in mine for (s3, t3) in f):
-                return True
-            if 'M' not in a['tcard'] and len(set(t for (_, t) in mine)) > 1:
-                return True
-        return False
-
-    # a row whose new() was aborted by a justified RelateException may lack any of its own links: what the others
-    # read through it lies between "all of them" (pred) and "none of them" (pred_lo)
-    aborted = set(s_ for s_ in rel_rows if justified(s_))
-    pred_lo = _predicted(stmts, raw, expected, order, aborted, route == 'clone') if aborted else pred
     for ai, (f, b) in sorted(links.items()):
-        a = stmts[ai]
-        want = pred[ai]
-        if (f == want and b == want) or (f == expected[ai] and b == expected[ai]):
-            continue            # what the open findings predict — or exactly what the property states
-        first = sorted((f ^ want) | (b ^ want))[0]
-        what = '%s route: %s links %s, loading the same rows links %s (first difference: %s / %s); %s' % (
-            route, a['rel'], sorted(f | b), sorted(expected[ai]), _show(stmts, first[0]), _show(stmts, first[1]), context())
-        if _phrased(a):
-            if modelled and _phrased_symptom(a, stmts, f, b, want, bad_rows):
-                findings.setdefault('api-phrased-direction', what)
-                continue
-            fail('%s-links-differ' % route, what)
+        if (f, b) != want[ai]:
+            first = sorted((f ^ want[ai][0]) | (b ^ want[ai][1]))[0]
+            fail('%s-links-differ' % route,
+                 '%s route: %s links %s / %s; loading the same rows links %s, and the open findings %s explain only %s / %s '
+                 '(first difference: %s / %s); %s' % (route, stmts[ai]['rel'], sorted(f), sorted(b), sorted(expected[ai]),
+                                                     sorted(sim.triggers), sorted(want[ai][0]), sorted(want[ai][1]),
+                                                     _show(stmts, first[0]), _show(stmts, first[1]), context()))
             return None
-        if modelled and any(x['t'] == 'assoc' and _phrased(x) and
-                            ((x['sk'] == a['tk'] and set(x['skeys']) & set(a['tkeys'])) or
-                             (x['sk'] == a['sk'] and set(x['skeys']) & set(a['skeys']))) for x in stmts):
-            # its identifying (or referential) attributes are read through the links of a phrased association, which the
-            # open finding makes in the wrong direction: what `new` finds here is not predicted by the oracle (K compares it)
-            findings.setdefault('api-phrased-direction', what)
-            continue
-        if f != b or f - want:
-            fail('%s-links-differ' % route, what)
-            return None
-        for (s, t) in sorted(want - f):
-            if s in aborted or (s, t) not in pred_lo[ai]:
-                findings.setdefault('api-cardinality-rejected', what)
-            elif (s in bad_rows or t in bad_rows) and (stmts[s]['kind'] in phr_kinds or stmts[t]['kind'] in phr_kinds):
-                findings.setdefault('api-phrased-direction', what)      # a new() that a phrased association aborted
-            else:
-                fail('%s-links-differ' % route, what)
-                return None
-    for s in sorted(bad_rows):
-        kind = stmts[s]['kind']
-        what = '%s route: creating %s raised %s; %s' % (route, _show(stmts, s), out_of[s], context())
-        if s in rel_rows and justified(s):
-            findings.setdefault('api-cardinality-rejected', what)
-        elif kind in phr_kinds and modelled:
-            findings.setdefault('api-phrased-direction', what)
-        else:
-            fail('%s-raises' % route, what)
-            return None
-    if any(pred[ai] != expected[ai] for ai in expected) and 'api-phrased-direction' not in findings:
-        ai = [ai for ai in sorted(expected) if pred[ai] != expected[ai]][0]
-        s0, t0 = sorted(expected[ai] - pred[ai])[0]
-        findings.setdefault('api-dangling-chained-key',
-                            '%s route: %s does not link %s / %s, which loading the same rows links: an identifying attribute '
-                            'of the referred row is itself referential and its own reference is dangling or null, so it '
-                            'reads None; %s' % (route, stmts[ai]['rel'], _show(stmts, s0), _show(stmts, t0), context()))
-    for sig, what in sorted(findings.items()):
-        fail(sig, what)
+    if got_out != want_out:
+        k = [n for n, (x, y) in enumerate(zip(got_out, want_out)) if x != y][0]
+        fail('%s-raises' % route, '%s route: creating %s gave %s; the open findings %s explain %s; %s'
+             % (route, _show(stmts, order[k]), got_out[k], sorted(sim.triggers), want_out[k], context()))
+        return None
+    # the route does what the open findings predict, and that differs from the property's statement
+    if not sim.triggers or not modelled:
+        ai = [ai for ai in sorted(links) if links[ai] != (expected[ai], expected[ai])]
+        fail('%s-links-differ' % route if ai else '%s-raises' % route,
+             '%s route differs from loading the same rows (%s) and no open finding accounts for it; %s'
+             % (route, stmts[ai[0]]['rel'] if ai else got_out, context()))
+        return None
+    diff = [ai for ai in sorted(links) if links[ai] != (expected[ai], expected[ai])]
+    where = ('%s links %s, loading the same rows links %s' % (stmts[diff[0]]['rel'], sorted(links[diff[0]][0] | links[diff[0]][1]),
+                                                              sorted(expected[diff[0]]))) if diff else ('outcomes %s' % got_out)
+    for sig in sorted(sim.triggers):
+        fail(sig, '%s route: %s; %s' % (route, where, context()))
     return None
 
 
